@@ -9,6 +9,7 @@ import (
 	"fmt"
 	"log/slog"
 	"net/netip"
+	"reflect"
 	"sync"
 	"sync/atomic"
 	"testing"
@@ -287,7 +288,7 @@ func c06CheckPair(c *mc.Check, s *c06Session, l *slog.Logger) {
 		}
 		// handshake counters 1..MessageIndex must be refused by the receiver, even when correctly sealed
 		for ctr := uint64(1); ctr <= dir.mi; ctr++ {
-			if _, err := dir.to.Decrypt(l, ctr, seal(ctr), make([]byte, 12)); !errors.Is(err, ErrAlreadySeen) {
+			if _, err := c06Decrypt(dir.to, l, ctr, seal(ctr), make([]byte, 12)); !errors.Is(err, ErrAlreadySeen) {
 				c.Violation(fmt.Sprintf("fresh tunnel accepts data counter %d <= handshake message count (%s)", ctr, dir.name), map[string]any{"session": d, "err": fmt.Sprint(err)})
 			}
 		}
@@ -295,15 +296,15 @@ func c06CheckPair(c *mc.Check, s *c06Session, l *slog.Logger) {
 		if !ok || next != dir.mi+1 {
 			c.Violation("first data counter is not MessageIndex+1", map[string]any{"session": d, "dir": dir.name, "got": next, "want": dir.mi + 1})
 		}
-		pt, err := dir.to.Decrypt(l, dir.mi+1, seal(dir.mi+1), make([]byte, 12))
+		pt, err := c06Decrypt(dir.to, l, dir.mi+1, seal(dir.mi+1), make([]byte, 12))
 		if err != nil || string(pt) != "payload" {
 			c.Violation(fmt.Sprintf("fresh tunnel refuses the first data packet (counter MessageIndex+1, %s)", dir.name), map[string]any{"session": d, "err": fmt.Sprint(err)})
 		}
-		if _, err := dir.to.Decrypt(l, dir.mi+1, seal(dir.mi+1), make([]byte, 12)); !errors.Is(err, ErrAlreadySeen) {
+		if _, err := c06Decrypt(dir.to, l, dir.mi+1, seal(dir.mi+1), make([]byte, 12)); !errors.Is(err, ErrAlreadySeen) {
 			c.Violation("fresh tunnel accepts the first data packet twice", map[string]any{"session": d, "dir": dir.name})
 		}
 		// and the sender's own receive side must not open its own traffic
-		if _, err := dir.from.Decrypt(l, dir.mi+2, seal(dir.mi+2), make([]byte, 12)); err == nil {
+		if _, err := c06Decrypt(dir.from, l, dir.mi+2, seal(dir.mi+2), make([]byte, 12)); err == nil {
 			c.Violation("a side decrypts its own outbound traffic ("+dir.name+")", d)
 		}
 	}
@@ -535,3 +536,42 @@ func TestVerifC06(t *testing.T) {
 	c.Assume("AEAD/DH primitives are trusted: 'opens' means authenticates under the real noiseutil wrapper at two nonces (3 and 2^33)")
 	c.Assume("a sending key trivially opens under itself (same symmetric key); the statement's 'only' is read over the four result keys of the session and, in part 2, the keys of a concurrent session")
 }
+
+// c06Decrypt calls ConnectionState.Decrypt through reflection, filling the parameters by type (logger, counter, packet,
+// nonce buffer; any extra bool parameter — e.g. "arrived inside a relay frame" — is passed as false): a change of the
+// method's signature must not stop the harness from building.
+func c06Decrypt(cs *ConnectionState, l *slog.Logger, counter uint64, pkt, nb []byte) ([]byte, error) {
+	m := reflect.ValueOf(cs).MethodByName("Decrypt")
+	mt := m.Type()
+	var args []reflect.Value
+	bytesSeen := 0
+	for i := 0; i < mt.NumIn(); i++ {
+		switch t := mt.In(i); {
+		case t == reflect.TypeOf(l):
+			args = append(args, reflect.ValueOf(l))
+		case t.Kind() == reflect.Uint64:
+			args = append(args, reflect.ValueOf(counter).Convert(t))
+		case t.Kind() == reflect.Slice && t.Elem().Kind() == reflect.Uint8:
+			if bytesSeen == 0 {
+				args = append(args, reflect.ValueOf(pkt))
+			} else {
+				args = append(args, reflect.ValueOf(nb))
+			}
+			bytesSeen++
+		default:
+			args = append(args, reflect.Zero(t))
+		}
+	}
+	res := m.Call(args)
+	var out []byte
+	var err error
+	for _, r := range res {
+		if b, ok := r.Interface().([]byte); ok {
+			out = b
+		} else if e, ok := r.Interface().(error); ok {
+			err = e
+		}
+	}
+	return out, err
+}
+
